@@ -214,7 +214,11 @@ def rebin_case(draw):
         x = [draw(st.one_of(st.integers(0, top), st.sampled_from([top, top - 1, 0]))) for _ in range(n)]
     else:
         x = [100 * draw(uf) for _ in range(n)]
-    return dict(shape=shape, target=target, ops=ops, dtype=dtype, x=x, sample=draw(st.booleans()))
+    sample = draw(st.booleans())
+    if dtype in ('f8', '>f8') and (sample or all(o == 'keep' for o in ops)) and draw(st.integers(0, 3)) == 0:
+        # picks and unchanged axes only copy samples: finite values of any size, also next to each other with opposite signs
+        x = [draw(st.sampled_from([1.7e308, -1.7e308, 1e308, -3e307, 0.0, 1.0])) for _ in range(n)]
+    return dict(shape=shape, target=target, ops=ops, dtype=dtype, x=x, sample=sample)
 
 
 def rebin_reference(a, target, sample):
